@@ -197,6 +197,9 @@ impl Ctx {
                 let pattern = match opt(r, 4) {
                     0 => format!("{}/arch.{{}}.{}", d, ext),
                     1 => format!("{}/ar{{}}/arch.{{}}.{}", d, ext),
+                    // 3: `xm` is a symbolic link to a directory on ANOTHER file system (when the machine
+                    // has one): every move into / out of it is refused by rename (EXDEV)
+                    3 => format!("{}/xm/arch.{{}}.{}", d, ext),
                     _ => format!("{}/ar{{}}/arch.{}", d, ext),
                 };
                 Box::new(
@@ -233,7 +236,11 @@ impl Ctx {
                 for e in rd.flatten() {
                     let p = e.path();
                     match e.metadata() {
-                        Ok(m) if m.file_type().is_symlink() => {}
+                        Ok(m) if m.file_type().is_symlink() => {
+                            if e.file_name() == "xm" && p.is_dir() {
+                                walk(base, &p, out);
+                            }
+                        }
                         Ok(m) if m.is_dir() => walk(base, &p, out),
                         Ok(m) => out.push((
                             p.strip_prefix(base).unwrap().to_string_lossy().to_string(),
@@ -261,7 +268,9 @@ impl Ctx {
             }
         }
         let comps: Vec<&str> = name.split('/').collect();
-        let dir_idx = if comps.len() == 2 {
+        let dir_idx = if comps.len() == 2 && comps[0] == "xm" {
+            None
+        } else if comps.len() == 2 {
             match comps[0].strip_prefix("ar").and_then(|x| x.parse::<u128>().ok()) {
                 Some(i) => Some(i),
                 None => return (2, 0, false),
@@ -403,6 +412,28 @@ pub fn run(case: &Val) -> Val {
     }
     let tmp = tempfile::tempdir().unwrap();
     let dir: &Path = tmp.path();
+    // roller shape 3: the archive directory `xm` lives on another file system
+    let _other_fs: Option<tempfile::TempDir> = if c[1].l()[0].n() == 1 && opt(c[1].l(), 4) == 3 {
+        use std::os::unix::fs::MetadataExt;
+        let here = std::fs::metadata(dir).map(|m| m.dev()).unwrap_or(0);
+        let mut found = None;
+        for cand in ["/dev/shm", "/tmp", "/var/tmp", "/run"] {
+            let ok = std::fs::metadata(cand).map(|m| m.is_dir() && m.dev() != here).unwrap_or(false);
+            if ok {
+                if let Ok(t) = tempfile::tempdir_in(cand) {
+                    found = Some(t);
+                    break;
+                }
+            }
+        }
+        match &found {
+            Some(t) => std::os::unix::fs::symlink(t.path(), dir.join("xm")).expect("symlink xm"),
+            None => std::fs::create_dir(dir.join("xm")).expect("mkdir xm"), // one file system only
+        }
+        found
+    } else {
+        None
+    };
     // record table: ids in op order (burst: thread-major)
     let mut table: Vec<Vec<Vec<u8>>> = Vec::new();
     for o in c[4].l() {
